@@ -511,11 +511,24 @@ class Interp:
         axis = op.options.scalar(0, "i", 0)
         so, zo, _ = self.q(op.outputs[0])
         parts = []
+        requant = False
         for i in op.inputs:
-            s, z, _ = self.q(i)
+            s, z, dt = self.q(i)
             if (s[0], z[0]) != (so[0], zo[0]):
-                raise Unsupported("concat with requantisation")
-            parts.append(self.get(i))
+                if dt != "uint8":
+                    raise Unsupported("concat with requantisation of %s" % dt)
+                # reference_ops::ConcatenationWithScaling (uint8): float arithmetic, TfLiteRound, clamp to [0, 255]
+                inv = np.float32(1.0) / np.float32(so[0])
+                scale = np.float32(s[0]) * inv
+                bias = np.float32(-z[0]) * scale
+                v = self.get(i).astype(np.float32) * scale + bias
+                r = np.where(v >= 0, np.floor(v + np.float32(0.5)), -np.floor(-v + np.float32(0.5))).astype(np.int64) + zo[0]
+                parts.append(np.clip(r, 0, 255))
+                requant = True
+            else:
+                parts.append(self.get(i))
+        if requant:
+            self.approx_ops.append("CONCATENATION")
         return np.concatenate(parts, axis=axis)
 
     def op_SPLIT(self, op):
